@@ -152,6 +152,7 @@ def run(tier: str) -> int:
                                 inputs=profiles.inputs_exhaustive(4, 6, cap_q=150, cap_t=900), per_tu=2,
                                 configs=profiles.amr_configs(ams=((1, 'r'), (1, 'o')), eols=('lf_crlf', 'crlf'))),
         bytes_profile(),
+        profiles.atoms_profile('atoms', ORACLES, cap_q=120, cap_t=1500, per_tu=3),
     ]
 
     def extra(v: common.Verdict, cov: Dict, rng: random.Random):
